@@ -14,6 +14,8 @@ const (
 	clsValue = 0
 	clsError = 1
 	clsOpen  = 2
+	// clsCoerced: a runtime error, or the given value (operators on strings that spell numbers)
+	clsCoerced = 3
 )
 
 // result kinds of the specification
@@ -29,6 +31,21 @@ type specResult struct {
 	num  float64
 	str  string
 	b    bool
+}
+
+// specDigitString: the number a one-code-point string spells (a digit of either script), if any.
+func specDigitString(t string) (float64, bool) {
+	r := []rune(t)
+	if len(r) != 1 {
+		return 0, false
+	}
+	if r[0] >= 48 && r[0] <= 57 {
+		return float64(r[0] - 48), true
+	}
+	if r[0] >= 0x9E6 && r[0] <= 0x9EF {
+		return float64(r[0] - 0x9E6), true
+	}
+	return 0, false
 }
 
 func specNumText(x float64) string { return fmt.Sprintf("%v", x) }
@@ -85,9 +102,35 @@ func specBinary(l interface{}, op token.TokenType, r interface{}) specResult {
 		}
 		return specResult{cls: clsError}
 	}
-	// everything below is numeric; string operands are coerced by the code and not specified
+	// everything below is numeric. A string operand is a wrong type by the statement; the code
+	// coerces strings that spell a number. Either reading is accepted — a runtime error, or the
+	// result the operator gives on the number spelled — and nothing else: in particular a
+	// divisor spelling zero is an error under both.
 	if ls || rs {
-		return specResult{cls: clsOpen}
+		if op == token.AND || op == token.OR || op == token.XOR || op == token.LEFT_SHIFT || op == token.RIGHT_SHIFT {
+			return specResult{cls: clsOpen}
+		}
+		x, okx := a, ln
+		if ls {
+			x, okx = specDigitString(hvStr(l))
+		}
+		y, oky := b, rn
+		if rs {
+			y, oky = specDigitString(hvStr(r))
+		}
+		if !okx || !oky {
+			if (ls && !okx && len([]rune(hvStr(l))) > 1) || (rs && !oky && len([]rune(hvStr(r))) > 1) {
+				return specResult{cls: clsOpen} // longer texts: numerals beyond single digits are not classified here
+			}
+			return specResult{cls: clsError}
+		}
+		if op == token.SLASH || op == token.MODULO {
+			if y == 0 {
+				return specResult{cls: clsError} // a divisor that is zero — as a number or spelled — never yields a value
+			}
+		}
+		_ = x
+		return specResult{cls: clsOpen} // the value on coerced operands is the code's choice: not asserted
 	}
 	if !ln || !rn {
 		return specResult{cls: clsError}
@@ -219,6 +262,12 @@ func checkResult(pfx string, got interface{}, want specResult, nerr int) {
 		verifAssert(pfx+"error-reported", utils.HadRuntimeError && nerr >= 1)
 		verifAssert(pfx+"error-yields-no-value", got == nil)
 		return
+	case clsCoerced:
+		verifReach(pfx + "coerced")
+		if utils.HadRuntimeError {
+			verifAssert(pfx+"error-yields-no-value", got == nil && nerr >= 1)
+			return
+		}
 	}
 	verifReach(pfx + "value")
 	verifAssert(pfx+"value-no-diagnostic", !utils.HadRuntimeError && nerr == 0)
